@@ -272,6 +272,10 @@ class ContinueExc(Exception):
     pass
 
 
+class RestartVerify(Exception):
+    """the contract learned something about the function's loops: enumerate its paths again"""
+
+
 class LoopCut:
     """inv(I) -> [(name, bool | z3 Bool)] evaluated on the current state; havoc(I) assigns the loop-modified
     state its arbitrary-iteration value (ints are havocked automatically)."""
@@ -308,6 +312,7 @@ class CInterp:
         self.inputs = []           # (name, z3 term) reported in counter-models
         self.arrays = []           # every array object created on this path
         self.singletons = {}
+        self.loop_mods = []
         self.enum_by_name = {}     # enum constants (header values are left symbolic unless the contract pins them)
         self.solver = Z.Solver()
         self.solver.set("timeout", 2000)
@@ -848,6 +853,14 @@ class CInterp:
             return model(self, args, n)
         if name in self.tu:
             return self.inline(self.tu[name], args)
+        # a helper defined in the same file (e.g. after an "extract function" refactoring): inline its body
+        try:
+            extra = dump(self.spec.file, name)
+        except Exception:
+            extra = {}
+        if name in extra:
+            self.tu[name] = extra[name]
+            return self.inline(extra[name], args)
         raise Unsupported(f"call to {name} (no contract)")
 
     def inline(self, fdecl, args):
@@ -1001,18 +1014,35 @@ class CInterp:
         if cut is None:
             raise Unsupported(f"loop #{ordn} has no invariant")
         where = f"{self.spec.file}:{n.get('_line', self.line)}"
+        self.loop_mods = modified_cells(self, n)
         for nm, g in cut.inv(self):
             self.oblige(f"loop #{ordn} invariant on entry: {nm}", "inv", g, where)
         # arbitrary iteration: integers written by the loop are havocked; loop-carried pointers take the value the
         # contract gives (default: unchanged, which is then checked at the end of the body); listed arrays are havocked
         mods = modified_cells(self, n)
+        self.loop_mods = mods
+        auto = self.spec.auto_cursors.get(ordn, {})
         for cell in mods:
             v = cell.value
             if isinstance(v, IV):
                 cell.value = IV(self.fresh_bv(cell.name + "_k", v.bits), v.bits, v.signed)
+            elif cell.name in auto and cell.name not in cut.ptrs and cell.name not in cut.cursors and cell.name not in cut.dead:
+                # pointer into a library-owned record sequence (getmntent()/getutent()-style): NULL or some record
+                if self.choose(2, f"cursor {cell.name}: NULL/record") == 0:
+                    cell.value = PV(None)
+                else:
+                    k = self.ghost.get("records", 0)
+                    self.ghost["records"] = k + 1
+                    m = Mem("struct", f"{auto[cell.name][1]}#{k}", ctype=auto[cell.name][0], fields={}, library_owned=True)
+                    self.ghost.setdefault("record_objs", []).append(m)
+                    cell.value = PV(m, 0)
         hav = set()
         for nm in cut.arrays:
             m = self.var(nm).get(self)
+            if isinstance(m, PV):           # the array reached through a pointer parameter (helper function)
+                m = m.obj
+            if not isinstance(m, Mem) or m.kind != "arr":
+                raise Unsupported(f"loop #{ordn}: '{nm}' is not an array here")
             self.n_fresh += 1
             m.content = Z.Array(f"{nm}_k!{self.n_fresh}", Z.BitVecSort(64), Z.BitVecSort(m.bits))
             m.nul_w = []
@@ -1065,6 +1095,21 @@ class CInterp:
                 self.oblige(f"loop #{ordn}: cursor '{cell.name}' satisfies its invariant at the end of the body", "inv",
                             bool(cut.cursors[cell.name][1](self, cell.value)), where)
                 continue
+
+            def lib_rec(v):
+                return isinstance(v, PV) and (v.obj is None or (isinstance(v.obj, Mem) and v.obj.kind == "struct"
+                                                                and getattr(v.obj, "library_owned", False) and v.off == 0))
+            if cell.name in auto:
+                self.oblige(f"loop #{ordn}: '{cell.name}' is NULL or a library record at the end of the body", "inv",
+                            lib_rec(cell.value), where)
+                continue
+            if lib_rec(hv) and lib_rec(cell.value) and not (hv.obj is cell.value.obj) and cell.name not in cut.ptrs:
+                # a loop-carried pointer into a library record sequence: redo the function with it treated as a cursor
+                o = cell.value.obj or hv.obj
+                ctype = o.ctype if o is not None else strip_q(cell.ctype).rstrip("*").strip()
+                label = (o.name.split("#")[0] if o is not None else "record")
+                self.spec.auto_cursors.setdefault(ordn, {})[cell.name] = (ctype, label)
+                raise RestartVerify()
             want = cut.ptrs[cell.name](self) if cell.name in cut.ptrs else hv
             got = cell.value
             same = isinstance(got, PV) and got.obj is want.obj and (got.obj is None or _same_off(got.off, want.off))
@@ -1812,6 +1857,7 @@ class CContract:
         self.field = field or default_field
         self.note, self.replay, self.max_paths = note, replay, max_paths
         self.merge, self.merge_memo = merge, {}
+        self.auto_cursors = {}
         self.checks = checks or {}      # extern name -> fn(I, args) -> [(name, goal)]: functional obligations at call sites
         self.name = f"{os.path.basename(file)}:{func}"
 
@@ -1845,6 +1891,8 @@ def verify(spec):
     params = [c for c in fn["inner"] if c["kind"] == "ParmVarDecl"]
     prefix, paths, exits, infeasible, cut_ends = [], 0, 0, 0, 0
     spec.merge_memo = {}
+    spec.auto_cursors = {}
+    restarts = 0
     records = []
     seen = {}
     t0 = time.time()
@@ -1880,6 +1928,15 @@ def verify(spec):
                     I.oblige("an object is returned only with no exception set", "post", Z.Not(I.ghost["err"]), f"{spec.file}: return")
             for nm, g in spec.post(I, x):
                 I.oblige(nm, "post", g, f"{spec.file}: return")
+        except RestartVerify:
+            restarts += 1
+            if restarts > 8:
+                raise Unsupported("loop cursors could not be stabilised")
+            prefix, paths, exits, infeasible, cut_ends, records = [], 0, 0, 0, 0, []
+            spec.merge_memo = {}
+            continue
+        except KeyError as e:
+            raise Unsupported(f"the contract names a local variable the function no longer has: {e}")
         except Infeasible:
             infeasible += 1
             I.obl = []
